@@ -191,6 +191,14 @@ Definition unset_paths (rules : list rule) (req : path) : rres * list path :=
 Definition part_key (p : part) : key := match p with Lit k => k | Ph n => 1000 + n end.
 Definition parts_key (ps : list part) : path := map part_key ps.
 
+(* View.Unset in general: one Unset per matching writeable rule (rule order), on the storage path as rendered -
+   an unfilled placeholder stays in the path as a match-all sub-key *)
+Definition unset_paths_g (rules : list rule) (req : path) : rres * list path :=
+  match matches writeable rules req with
+  | [] => (RNotFound, [])
+  | ms => (ROk, map (fun m : rmatch => parts_key (fst m)) ms)
+  end.
+
 (* replaceIn(path, "{n}", cand) *)
 Definition replace_in (sp : list part) (n cand : key) : list part :=
   map (fun p => match p with Ph m => if m =? n then Lit cand else Ph m | Lit k => Lit k end) sp.
@@ -368,18 +376,48 @@ Definition strip (v : tree) : tree := match purge v with Some v' => v' | None =>
 Definition bag_set (p : path) (v : tree) (l : bag) : bag :=
   match tset p (strip v) (Some (Obj l)) with Obj l' => l' | _ => l end.
 
-(* JSONDataBag.Unset: a missing member is fine, a scalar on the way is a decoding error *)
-Fixpoint bag_unset (p : path) (l : bag) : option bag :=
+(* JSONDataBag.Unset. A sub-key of the form {name} matches every key of its level (the Go code decides this from the
+   text of the sub-key); in a path such a sub-key is represented by a key >= 1000 (part_key: real keys are bytes).
+   unset(): None = error, Some None = nil (the caller removes the member that led here), Some (Some l) = updated level.
+   - last sub-key: a placeholder removes the entire level (nil); a literal key is deleted;
+   - otherwise, for the literal key / for every key of the level: a missing member is fine, a scalar is a decoding
+     error, an object is processed recursively and then removed (nil) or replaced (possibly by an empty object). *)
+Definition is_ph_key (k : key) : bool := 1000 <=? k.
+
+Fixpoint bag_unset_g (p : path) (l : bag) : option (option bag) :=
   match p with
-  | [] => Some l
-  | k :: r => match r with
-              | [] => Some (aremove k l)
-              | _ :: _ => match lookup k l with
-                          | None | Some Null => Some l
-                          | Some (Obj l') => match bag_unset r l' with Some x => Some (aset k (Obj x) l) | None => None end
-                          | Some (Atom _) => None
-                          end
-              end
+  | [] => Some (Some l)
+  | k :: r =>
+      match r with
+      | [] => if is_ph_key k then Some None else Some (Some (aremove k l))
+      | _ :: _ =>
+          let unset_key (acc : option bag) (key : key) : option bag :=
+            match acc with
+            | None => None
+            | Some cur =>
+                match lookup key cur with
+                | None | Some Null => Some cur
+                | Some (Obj l') => match bag_unset_g r l' with
+                                   | None => None
+                                   | Some None => Some (aremove key cur)
+                                   | Some (Some x) => Some (aset key (Obj x) cur)
+                                   end
+                | Some (Atom _) => None
+                end
+            end in
+          match (if is_ph_key k then fold_left unset_key (map fst l) (Some l) else unset_key (Some l) k) with
+          | None => None
+          | Some l' => Some (Some l')
+          end
+      end
+  end.
+
+(* the top level: a nil result is ignored (Unset of a path that is one placeholder changes nothing) *)
+Definition bag_unset (p : path) (l : bag) : option bag :=
+  match bag_unset_g p l with
+  | None => None
+  | Some None => Some l
+  | Some (Some l') => Some l'
   end.
 
 (* ------------------------------------------------------------------ registry.Transaction *)
@@ -618,7 +656,7 @@ Definition step (rules : list rule) (st : state) (o : op) : state * obs :=
   | OUnset i req =>
       match nth_error (st_txs st) i with
       | None => (st, BSkip)
-      | Some t => match unset_paths rules req with
+      | Some t => match unset_paths_g rules req with
                   | (ROk, ps) => (mkState (st_bag st) (set_nth i (add_deltas t (map (fun p => (p, Null)) ps)) (st_txs st)), BRes ROk)
                   | (e, _) => (st, BRes e)
                   end
@@ -650,8 +688,8 @@ Fixpoint run (rules : list rule) (st : state) (ops : list op) : list obs :=
 Definition set_via_view (rules : list rule) (committed : bag) (req : path) (v : tree) : bag * bool :=
   let t := mkTx committed [] in
   let r := match v with
-           | Null => match unset_paths rules req with (ROk, ps) => Some (map (fun p => (p, Null)) ps) | _ => None end
-           | _ => match set_writes rules req v with (ROk, ws) => Some ws | _ => None end
+           | Null => match unset_paths_g rules req with (ROk, ps) => Some (map (fun p => (p, Null)) ps) | _ => None end
+           | _ => match set_writes_g rules req v with (ROk, ws) => Some ws | _ => None end
            end in
   match r with
   | None => (committed, false)
@@ -707,6 +745,63 @@ Definition is_either (rules : list rule) (req : path) (v : tree) : option (bool 
   | Some lms => if overlapping (map snd lms) then cls else None
   | None => cls
   end.
+
+(* ------------------------------------------------------------------ the whole transaction model as a RELATION
+   (used by the theorems; the functions above are its deterministic part, used by the comparison).
+   Every answer View.Set may give on a transaction:
+   - order-dependent suffixes: BadRequest recording nothing, or - unless data is left over whatever the order - ROk
+     recording exactly the writes ws;
+   - the class the model does not determine (set_writes_g answers RUnsupported: a suffix placeholder already filled in
+     the storage path so that several candidates go to one storage path, or a storage placeholder that the request
+     pattern never binds): any answer and any writes, except that a rejected Set records nothing (View.Set performs
+     its writes after all its checks);
+   - otherwise exactly set_writes_g. *)
+Definition set_outcome (rules : list rule) (req : path) (v : tree) (o : rres * list delta) : Prop :=
+  match is_either rules req v with
+  | Some (must, ws) => o = (RBadRequest, []) \/ (must = false /\ o = (ROk, ws))
+  | None => match set_writes_g rules req v with
+            | (RUnsupported, _) => fst o <> ROk -> snd o = []
+            | r => o = r
+            end
+  end.
+
+Definition determined (rules : list rule) (req : path) (v : tree) : Prop :=
+  is_either rules req v <> None \/ fst (set_writes_g rules req v) <> RUnsupported.
+
+Section Relation.
+Variable valid : tree -> bool.
+Variable rules : list rule.
+
+Inductive rstep : state -> op -> state -> obs -> Prop :=
+| rs_set_ok : forall st i req v t ws,
+    nth_error (st_txs st) i = Some t -> set_outcome rules req v (ROk, ws) ->
+    rstep st (OSet i req v) (mkState (st_bag st) (set_nth i (add_deltas t ws) (st_txs st))) (BRes ROk)
+| rs_set_rejected : forall st i req v t e ws,
+    nth_error (st_txs st) i = Some t -> set_outcome rules req v (e, ws) -> e <> ROk ->
+    rstep st (OSet i req v) st (BRes e)
+| rs_set_skip : forall st i req v, nth_error (st_txs st) i = None -> rstep st (OSet i req v) st BSkip
+| rs_other : forall st o, (forall i req v, o <> OSet i req v) ->
+    rstep st o (fst (step valid rules st o)) (snd (step valid rules st o)).
+
+Inductive rsteps : state -> list (op * obs) -> state -> Prop :=
+| rss_nil : forall st, rsteps st [] st
+| rss_cons : forall st o b st1 r st2, rstep st o st1 b -> rsteps st1 r st2 -> rsteps st ((o, b) :: r) st2.
+
+(* the entry point (registrystate.SetViaView, one request) with every outcome of the Set *)
+Definition via_view (committed : bag) (req : path) (v : tree) (res : bag * bool) : Prop :=
+  exists e ds,
+    match v with
+    | Null => (e, ds) = (fst (unset_paths_g rules req), map (fun p => (p, Null)) (snd (unset_paths_g rules req)))
+    | _ => set_outcome rules req v (e, ds)
+    end /\
+    res = match e with
+          | ROk => match tx_commit valid (add_deltas (mkTx committed []) ds) committed with
+                   | Some b => (b, true)
+                   | None => (committed, false)
+                   end
+          | _ => (committed, false)
+          end.
+End Relation.
 
 Fixpoint compare (rules : list rule) (st : state) (bare : option bag) (steps : list (op * obs)) : bool :=
   match steps with
